@@ -412,13 +412,15 @@ Qed.
 
 Lemma pop_step_inv (pop : list (agent T)) o : Forall Inv pop -> Forall Inv (pop_step O pop o).
 Proof.
-  intros H. destruct o as [draws|i k u|s d|s d|s d|i0|i]; cbn.
+  intros H. destruct o as [draws|i k u|s d|draws|s d|s d|i0|i]; cbn.
   - apply mutation_round_inv; exact H.
   - destruct (nth_error pop i) as [a|] eqn:E; [|exact H].
     apply upd_nth_Forall; [exact H|]. apply inv_rl_hp_mutation.
     rewrite Forall_forall in H. apply H. eapply nth_error_In; eauto.
   - destruct (nth_error pop s) as [a|] eqn:E; [|exact H].
     apply upd_nth_Forall; [exact H|]. rewrite Forall_forall in H. apply H. eapply nth_error_In; eauto.
+  - destruct H as [|a rest Ha Hr]; constructor; [|apply mutation_round_inv; exact Hr].
+    destruct Ha as (W & C & Co). split; [exact W|split; [exact C|exact Co]].
   - destruct (nth_error pop s) as [a|] eqn:E; [|exact H].
     destruct (nth_error pop d) as [b|] eqn:E2; [|exact H].
     apply upd_nth_Forall; [exact H|]. apply inv_loaded_into.
@@ -439,10 +441,11 @@ Qed.
 
 Lemma pop_step_length (pop : list (agent T)) o : length (pop_step O pop o) = length pop.
 Proof.
-  destruct o as [draws|i k u|s d|s d|s d|i0|i]; cbn.
+  destruct o as [draws|i k u|s d|draws|s d|s d|i0|i]; cbn.
   - apply mutation_round_length.
   - destruct (nth_error pop i); auto using upd_nth_length.
   - destruct (nth_error pop s); auto using upd_nth_length.
+  - destruct pop; cbn; [reflexivity|]. rewrite mutation_round_length. reflexivity.
   - destruct (nth_error pop s); [destruct (nth_error pop d)|]; auto using upd_nth_length.
   - destruct (nth_error pop s); auto using upd_nth_length.
   - reflexivity.
@@ -631,13 +634,15 @@ Qed.
 
 Lemma rinv_pop_step (pop : list (agent Q)) o : Forall RInv pop -> Forall RInv (pop_step QOps pop o).
 Proof.
-  intros H. destruct o as [draws|i k u|s d|s d|s d|i0|i]; cbn.
+  intros H. destruct o as [draws|i k u|s d|draws|s d|s d|i0|i]; cbn.
   - apply rinv_round; exact H.
   - destruct (nth_error pop i) as [a|] eqn:E; [|exact H].
     apply upd_nth_Forall; [exact H|]. apply rinv_rl_hp_mutation.
     rewrite Forall_forall in H. apply H. eapply nth_error_In; eauto.
   - destruct (nth_error pop s) as [a|] eqn:E; [|exact H].
     apply upd_nth_Forall; [exact H|]. rewrite Forall_forall in H. apply H. eapply nth_error_In; eauto.
+  - destruct H as [|a rest Ha Hr]; constructor; [|apply rinv_round; exact Hr].
+    destruct Ha as ((W & C & Co) & R & G). split; [split; [exact W|split; [exact C|exact Co]]|split; [exact R|exact G]].
   - destruct (nth_error pop s) as [a|] eqn:E; [|exact H].
     destruct (nth_error pop d) as [b|] eqn:E2; [|exact H].
     apply upd_nth_Forall; [exact H|].
